@@ -148,8 +148,8 @@ func runWriterOps(a []string) string {
 				return fmt.Sprintf("%d,%s", n, classify(err))
 			case "rs":
 				opn, _ := strconv.Atoi(f[2])
+				// the previous user's message state stays as it was (compressed, if it was): Reset must detach it
 				w.Reset(d, side(f[1]), ws.OpCode(opn))
-				ms = wsflate.MessageState{}
 				return fmt.Sprintf("%d", w.Size())
 			case "ro":
 				opn, _ := strconv.Atoi(f[1])
